@@ -11,7 +11,7 @@ VARIABLES t, cond, done
 vars == <<t, cond, done>>
 
 ValQ == {None, VInt(1), VNaN(1), VNaN(2), VStr("ab"), VStr("b")}
-ValT == ValQ \cup {VInt(2), VFlt(1, 1), VInf(1), VBool(TRUE)}
+ValT == ValQ \cup {VFlt(1, 1), VInf(1)}      \* 8 values: 4 161 tables x ~90 conditions
 Val  == IF Wide THEN ValT ELSE ValQ
 
 Cols == <<"a", "b">>
